@@ -29,10 +29,12 @@ const goBin = "go1.26.8"
 // The framework is relocatable (background runs execute from a snapshot of the
 // committed tree); the registered checks run from /verif.
 var (
-	verifDir = envOr("VERIF_ROOT", "/verif")
-	simDir   = filepath.Join(verifDir, "sim")
-	buildDir = envOr("VERIF_BUILD", filepath.Join(verifDir, ".build"))
-	simTest  = filepath.Join(buildDir, "sim.test")
+	verifDir   = envOr("VERIF_ROOT", "/verif")
+	simDir     = filepath.Join(verifDir, "sim")
+	buildDir   = envOr("VERIF_BUILD", filepath.Join(verifDir, ".build"))
+	simTest    = filepath.Join(buildDir, "sim.test")
+	simTest386 = filepath.Join(buildDir, "sim.386.test") // the same simulator as a 32-bit binary (platform leg)
+	have386    = false
 	// repoDir is the tree under test. The registered checks always use /repo; the framework's own
 	// tooling (mutant evaluation, background runs) may point it at a scratch copy.
 	repoDir = envOr("VERIF_REPO", "/repo")
@@ -138,6 +140,18 @@ func build() {
 		fmt.Print(string(out))
 		harness("simulator does not build against /repo's working tree: %v", err)
 	}
+	// platform leg: the width of int is part of the environment. A share of every plan also runs in a 386 binary.
+	have386 = false
+	if os.Getenv("VERIF_NO_386") == "" {
+		c386 := exec.Command(goBin, append(append([]string{"test"}, modfileArgs()...), "-c", "-tags", "verif", "-o", simTest386, ".")...)
+		c386.Dir = simDir
+		c386.Env = append(goEnv(), "GOARCH=386")
+		if out, err := c386.CombinedOutput(); err != nil {
+			fmt.Printf("note: no 32-bit build of the simulator against this tree (%v): %s; the platform leg is skipped\n", err, tail(string(out), 300))
+		} else {
+			have386 = true
+		}
+	}
 }
 
 func firstLine(s string) string {
@@ -179,8 +193,12 @@ func levelOf(p string) string {
 	return "exploration"
 }
 
-func runWorker(prop, tier string, seed uint64, w, W int, outPrefix, knownPath string, scale int) (int, string) {
-	cmd := exec.Command("bash", "-c", "ulimit -v 5242880; exec "+simTest+" -test.run '^TestWorker$' -test.timeout 6h -test.count 1")
+func runWorker(prop, tier string, seed uint64, w, W int, outPrefix, knownPath string, scale int, bin ...string) (int, string) {
+	exe, limit := simTest, "ulimit -v 5242880; "
+	if len(bin) > 0 && bin[0] != "" {
+		exe, limit = bin[0], "" // a 32-bit process cannot exceed its address space anyway
+	}
+	cmd := exec.Command("bash", "-c", limit+"exec "+exe+" -test.run '^TestWorker$' -test.timeout 6h -test.count 1")
 	cmd.Env = append(goEnv(),
 		"VERIF_PROP="+prop, "VERIF_TIER="+tier, "VERIF_SEED="+strconv.FormatUint(seed, 10),
 		"VERIF_WORKER="+strconv.Itoa(w), "VERIF_WORKERS="+strconv.Itoa(W), "VERIF_OUT="+outPrefix,
@@ -204,8 +222,27 @@ type replayResult struct {
 	exit       int
 }
 
+// replayBinary picks the binary a replay file was recorded with (config.arch).
+func replayBinary(path string) (string, string) {
+	var rf struct {
+		Config struct {
+			Arch string `json:"arch"`
+		} `json:"config"`
+	}
+	if b, err := os.ReadFile(path); err == nil {
+		json.Unmarshal(b, &rf)
+	}
+	if rf.Config.Arch == "386" {
+		if _, err := os.Stat(simTest386); err == nil {
+			return simTest386, ""
+		}
+	}
+	return simTest, "ulimit -v 5242880; "
+}
+
 func runReplay(path, knownPath, isolate string, verbose bool, history ...bool) replayResult {
-	cmd := exec.Command("bash", "-c", "ulimit -v 5242880; exec "+simTest+" -test.run '^TestReplay$' -test.timeout 60m -test.count 1")
+	exe, limit := replayBinary(path)
+	cmd := exec.Command("bash", "-c", limit+"exec "+exe+" -test.run '^TestReplay$' -test.timeout 60m -test.count 1")
 	cmd.Env = append(goEnv(), "VERIF_REPLAY="+path, "VERIF_KNOWN="+knownPath, "GOMAXPROCS=1")
 	if len(history) > 0 && history[0] {
 		cmd.Env = append(cmd.Env, "VERIF_REPLAY_HISTORY=1")
@@ -247,7 +284,8 @@ func runReplay(path, knownPath, isolate string, verbose bool, history ...bool) r
 // runsFreely replays a history without the cooperative scheduler (VERIF_FREERUN) and reports whether it ran to
 // completion within two minutes of real time.
 func runsFreely(path, knownPath string) bool {
-	cmd := exec.Command("bash", "-c", "ulimit -v 5242880; exec timeout 120 "+simTest+" -test.run '^TestReplay$' -test.timeout 60m -test.count 1")
+	exe, limit := replayBinary(path)
+	cmd := exec.Command("bash", "-c", limit+"exec timeout 120 "+exe+" -test.run '^TestReplay$' -test.timeout 60m -test.count 1")
 	cmd.Env = append(goEnv(), "VERIF_REPLAY="+path, "VERIF_KNOWN="+knownPath, "VERIF_FREERUN=1", "GOMAXPROCS=4")
 	out, err := cmd.CombinedOutput()
 	return err == nil && strings.Contains(string(out), "REPLAY ") && !strings.Contains(string(out), "hang=")
@@ -354,17 +392,32 @@ func main() {
 		code int
 		out  string
 	}
-	results := make([]wres, W)
+	// the platform leg: X extra workers of the 386 binary, each taking one slice of a 4W-fold partition of the plan
+	// (so about X/4W of the runs are also executed where an int has 32 bits)
+	X := 0
+	if have386 {
+		X = 4
+	}
+	prefixes := make([]string, W+X)
+	results := make([]wres, W+X)
 	var wg sync.WaitGroup
-	for w := 0; w < W; w++ {
+	for w := 0; w < W+X; w++ {
 		wg.Add(1)
+		prefixes[w] = filepath.Join(outDir, fmt.Sprintf("w%02d", w))
 		go func(w int) {
 			defer wg.Done()
-			code, out := runWorker(prop, tier, seed, w, W, filepath.Join(outDir, fmt.Sprintf("w%02d", w)), knownPath, scale)
+			if w < W {
+				code, out := runWorker(prop, tier, seed, w, W, prefixes[w], knownPath, scale)
+				results[w] = wres{code, out}
+				return
+			}
+			code, out := runWorker(prop, tier, seed, (w-W)*W+3, 4*W, prefixes[w], knownPath, scale, simTest386)
 			results[w] = wres{code, out}
 		}(w)
 	}
 	wg.Wait()
+	Wmain := W
+	W += X
 
 	stats := core.NewStats()
 	distinct := 0
@@ -484,6 +537,10 @@ func main() {
 	var lines []string
 	var unverified []string
 	extra := map[string]any{}
+	if W > Wmain {
+		extra["platform_leg"] = map[string]any{"goarch": "386", "workers": W - Wmain, "share_of_plan": fmt.Sprintf("%d/%d", W-Wmain, 4*Wmain),
+			"what": "the same simulator built for GOARCH=386 (32-bit int, 4-octet alignment of 64-bit words) executes this share of the plan; its findings replay in the 386 binary"}
+	}
 	if prop == "C13" {
 		lines = append(lines, raceLeg(tier, seed, known, stats, extra)...)
 	}
@@ -832,7 +889,7 @@ func writeEvidence(prop, tier string, seed uint64, st *core.Stats, distinct, vio
 		"level":       levelOf(prop),
 		"coverage":    cov,
 		"assumptions": []string{
-			"the simulator decides arrival patterns, faults, clock and task interleaving only at the seams listed in DESIGN.md section 5; between two yield sites a task runs atomically",
+			"the simulator decides arrival patterns, faults, clock and task interleaving only at the seams listed in DESIGN.md section 5 and at the yield points cmd/instrument inserts at build time in front of the lock, atomic, channel, wait and go statements of the library; between two yield sites a task runs atomically",
 			"a clean batch is evidence over the sampled runs, not a proof",
 			"reference models (spec tables, reference text decoders, crypto/md5) are trusted",
 		},
